@@ -196,6 +196,52 @@ fn verif_frame_stream_roundtrip() {
     assert!(data[k] == payload[k]);
 }
 
+// announced size for LARGE payloads (the round trip above is limited to 4 data bytes): for any
+// stream id, offset and flags and any data length up to 20 000 bytes - across the 63/64 and
+// 16383/16384 boundaries of the Length varint - encoding_size() equals the RFC 9000 19.8 layout:
+// type + id + [offset] + [length] + data. Only the size computation is executed (no 20 000-byte copy).
+static ZEROS: [u8; 20_000] = [0u8; 20_000];
+
+fn varint_len(v: u64) -> usize {
+    if v < 1 << 6 {
+        1
+    } else if v < 1 << 14 {
+        2
+    } else if v < 1 << 30 {
+        4
+    } else {
+        8
+    }
+}
+
+#[cfg_attr(kani, kani::proof)]
+#[cfg_attr(kani, kani::unwind(9))]
+fn verif_frame_stream_announced_size() {
+    let stream_id: u64 = kani::any();
+    let offset: u64 = kani::any();
+    kani::assume(stream_id <= MAX_VARINT && offset <= MAX_VARINT);
+    let is_last_frame: bool = kani::any();
+    let is_fin: bool = kani::any();
+    let data_len: usize = kani::any();
+    kani::assume(data_len <= 20_000);
+    let frame: StreamRef = Stream {
+        stream_id: VarInt::new(stream_id).unwrap(),
+        offset: VarInt::new(offset).unwrap(),
+        is_last_frame,
+        is_fin,
+        data: &ZEROS[..data_len],
+    };
+    let size = frame.encoding_size();
+    let expect = 1
+        + varint_len(stream_id)
+        + if offset != 0 { varint_len(offset) } else { 0 }
+        + if !is_last_frame { varint_len(data_len as u64) } else { 0 }
+        + data_len;
+    assert!(size == expect);
+    kani::cover!(!is_last_frame && data_len == 63, "largest payload with a 1-byte length");
+    kani::cover!(!is_last_frame && data_len == 16384, "smallest payload with a 4-byte length");
+}
+
 // ---- generated by tools/fixup.py: native replay entry ----
 #[cfg(not(kani))]
 #[test]
@@ -203,5 +249,6 @@ fn verif_replay() {
     kani::replay(&[
         ("verif_frame_stream_decode_diff", verif_frame_stream_decode_diff),
         ("verif_frame_stream_roundtrip", verif_frame_stream_roundtrip),
+        ("verif_frame_stream_announced_size", verif_frame_stream_announced_size),
     ]);
 }
